@@ -528,6 +528,26 @@ tokenizer error implies parser error. non-trivial = at least one token produced;
 		done += n;
 	}
 	cx.report.hit_n("random / mutated inputs", nrand as u64);
+	// well-formed programs behind (and in front of) bytes that editors and tools add: byte order marks, NUL, form feed,
+	// U+FEFF / U+200B / U+00A0 inside the text, CR-only line ends — whatever the tokenizer rejects the parser must reject too
+	{
+		let marks: [&[u8]; 12] = [b"\xEF\xBB\xBF", b"\xFE\xFF", b"\xFF\xFE", b"\xEF\xBB", b"\x00", b"\x0C", b"\xE2\x80\x8B", b"\xC2\xA0", b"\x1A", b"\xEF\xBB\xBF\xEF\xBB\xBF", b"\r", b"\xE2\x80\xA8"];
+		let bodies: [&[u8]; 6] = [b"nop;", b"", b"x: movs r0, 1;\n.du8 'a';\n", b".dstr \"s\";", b"// c\nnop;", b"/* c */ b x;"];
+		let mut inputs: Vec<Vec<u8>> = Vec::new();
+		for m in marks
+		{
+			for b in bodies
+			{
+				inputs.push([m, b].concat());
+				inputs.push([b, m].concat());
+				inputs.push([b, m, b].concat());
+			}
+		}
+		let lines: Vec<String> = inputs.iter().map(|b| format!("lex tok {}", hex(b))).collect();
+		let replies = cx.model.ask_many(&lines);
+		for (b, r) in inputs.iter().zip(replies.iter()) {c10_single(cx, b, r);}
+		cx.report.hit_n("programs with byte order marks / stray control and space characters", inputs.len() as u64);
+	}
 	for s in ["/* x */ \u{e9}", "\"a\nb\"", "mov r0, 10 \"ab\" \"x"]
 	{
 		let lx = real_lex(s.as_bytes());
